@@ -101,6 +101,20 @@ CHECKS = {
         note=TRUST,
         technique='Rocq proof (partial) + differential co-execution and statement checking against the Python code',
     ),
+    'C12': dict(
+        ref='5.12',
+        text='Theorems in coq/Properties/C12.v (partial): for every parser state with a current field and every following '
+             'continuation line, a blank-line marker and a truly empty or whitespace-only line lead to the same next state - '
+             'appended to the current field, then the continuation, no paragraph break - differing only in the recorded text of '
+             'that line (marker text vs empty); the continuation above protects the line from trailing-blank trimming; both '
+             'texts decode to an empty line in formatted fields. NOT proved: that the remainder of the parse and the copyright '
+             'object then differ in nothing else; this is decided by co-execution of the complete models with deb822.py and '
+             'copyright.py on generated DEP-5 and control documents with every admissible subset of their markers blanked (all '
+             'subsets for <=6 markers) and by the executable statement (same groups/numbers, same types, field names, words; '
+             'identical decoded texts for DEP-5 documents).',
+        note=TRUST,
+        technique='Rocq proof of the look-ahead rule (partial) + differential co-execution and statement checking against the Python code',
+    ),
     'C15': dict(
         ref='5.15',
         text='Theorems in coq/Properties/C15.v for all relationship trees, names and candidates: simple relationships answer '
